@@ -1,5 +1,7 @@
 (* tie A obligations for the loop / growth model *)
 From GR Require Import Base.Bytes Model.LoopModel Model.PosModel Model.SparseModel Gen.GenLoop.
+From Coq Require Import List Lia ZifyN ZifyBool NArith.
+Import ListNotations.
 Local Open Scope N_scope.
 (* the growth factor of the model is the one in the source; the loop limit the loader enforces is >= 1 (hypothesis of
    C02_pass_loop_bounded); the model's finalise fuel is the source's depth cut-off + 1 *)
@@ -13,3 +15,31 @@ Proof. reflexivity. Qed.
    cut-off would no longer bound the recursion (sibling lists are unbounded) *)
 Lemma gen_depth_incs_agree : GenLoop.fin_child_depth_inc = 1 /\ GenLoop.fin_sibling_depth_inc = 1 /\ GenLoop.flood_child_depth_inc = 1 /\ GenLoop.flood_sibling_depth_inc = 1.
 Proof. repeat split; reflexivity. Qed.
+
+(* the machine's map cursor: it starts at entry 1 + context of m_slot_map (entry 0 is the slot before the map), INSERT may step it back
+   to entry 0, NEXT steps it forward unless it already stands past the last of the [size] entries — `if (map - &smap[0] >= size) DIE`,
+   with &smap[0] = &m_slot_map[1].  So it never leaves entries 0 .. size + 1, and the map holds at most MAX_SLOTS entries: the array needs
+   MAX_SLOTS + 2 entries.  (With MAX_SLOTS + 1 the end-of-action store `*map = is` wrote one past the array on a full map: F29.) *)
+Inductive cur_op := CNext | CInsert.
+Definition cur_step (size : N) (i : N) (o : cur_op) : option N :=
+  match o with
+  | CNext => if size <=? i - 1 then (if i =? 0 then Some 1 else None) else Some (i + 1)      (* i = 0: map - &smap[0] = -1 < size *)
+  | CInsert => Some (if i =? 0 then 0 else i - 1)
+  end.
+Fixpoint cur_run (size i : N) (os : list cur_op) : option N :=
+  match os with [] => Some i | o :: r => match cur_step size i o with Some j => cur_run size j r | None => None end end.
+Lemma cur_step_bound size i o j : i <= size + 1 -> cur_step size i o = Some j -> j <= size + 1.
+Proof.
+  intros Hi. destruct o; cbn [cur_step].
+  - destruct (size <=? i - 1) eqn:E.
+    + destruct (i =? 0) eqn:E0; [|discriminate]. intros H; injection H as <-. lia.
+    + intros H; injection H as <-. lia.
+  - intros H; injection H as <-. destruct (i =? 0); lia.
+Qed.
+Theorem map_cursor_in_bounds : forall os size i j, size <= GenLoop.max_slots -> i <= size + 1 -> cur_run size i os = Some j ->
+  j < GenLoop.max_slots + GenLoop.slot_map_extra.
+Proof.
+  induction os as [|o r IH]; intros size i j Hs Hi H; cbn [cur_run] in H.
+  - injection H as <-. unfold GenLoop.max_slots, GenLoop.slot_map_extra in *. lia.
+  - destruct (cur_step size i o) as [k|] eqn:E; [|discriminate]. exact (IH size k j Hs (cur_step_bound _ _ _ _ Hi E) H).
+Qed.
